@@ -126,6 +126,7 @@ def run(tier):
     rule_R6(res, prog)
     rule_R7(res, prog)
     rule_R8(res, prog)
+    rule_R9(res, prog)
     return res.finish()
 
 
@@ -544,4 +545,128 @@ def rule_R8(res, prog):
                              "client too - no proof of possession over this handshake" % (fn.relfile, upd[0][0], sc["case"], len(upd)),
                              file=fn.relfile, line=upd[0][0])
             res.instance(rid, "computeSkeHash: arm %s hashes the client random" % sc["case"], ok, finding=f_)
+    res.floor(rid, 2)
+
+
+def rule_R9(res, prog):
+    """'completes only if the peer was authenticated or the application overrode': the chain validator reports failure by its
+    RETURN CODE as well as through per-certificate marks - it can fail without marking any certificate (issuer date test, bad
+    options) and without consulting the trust anchors.  In every protocol-layer caller of matrixValidateCertsExt, no path from
+    the call reaches the certificate callback (matrixUserCertValidator) or a success return on which the return code may
+    still be negative AND no alert has been stored in ssl->err: a negative code is an alert (so a missing callback fails the
+    handshake and a callback is never told `no alert`).  The result variable's possible sign is tracked through the branches
+    that test it; copies (`x = rc`) carry it on."""
+    import re
+    from sa import cfgutil as cu
+    rid = "C04.R9"
+    res.rule(rid, "a negative result of the chain validator always becomes an alert before the callback / a success exit (TLS <=1.2 and 1.3)")
+    NONE_ = prog.const("SSL_ALERT_NONE")
+    from sa.cg import load_cg
+    cg9 = load_cg(prog)
+    n = 0
+    for fn in sorted(prog.functions.values(), key=lambda f: f.qname):
+        if not fn.blocks or not fn.relfile.startswith("matrixssl/") or "/test/" in fn.relfile or fn.name.startswith("matrixValidateCerts"):
+            continue
+        sites = []
+        for b in fn.blocks:
+            for i, ln, x in cu.block_exprs(b):
+                for m in walk(x):
+                    if m.get("k") == "bin" and m["op"] == "=" and (strip(m["l"]) or {}).get("k") == "var":
+                        r = strip(m["r"])
+                        if r is not None and r.get("k") == "call" and r.get("fn") == "matrixValidateCertsExt":
+                            sites.append((b["id"], i, ln, strip(m["l"])["n"]))
+        for (bid, idx, ln, var) in sites:
+            n += 1
+            # DFS with state: set of variable names that may hold the (possibly negative) validator result
+            seen = set()
+            order = [i_ for i_, _, _ in cu.block_exprs(fn.bmap[bid])]
+            stack = [(bid, idx, frozenset([var]), frozenset(), [(bid, ln)])]
+            bad = None
+            while stack and bad is None:
+                cb, after, holders, errv0, path = stack.pop()
+                blk = fn.bmap[cb]
+                started = after is None
+                alerted = False
+                ended = False
+                hs = set(holders)
+                errvars = set(errv0)
+                for i, l2, x in cu.block_exprs(blk):
+                    if not started:
+                        if i == after:
+                            started = True
+                        continue
+                    if hs and any(m.get("k") == "call" and m.get("fn") == "matrixUserCertValidator" for m in walk(x)):
+                        bad = (l2, "the certificate callback is invoked", path)
+                        break
+                    for m in walk(x):
+                        if m.get("k") == "bin" and m["op"] == "=":
+                            lt = strip(m["l"])
+                            rt = strip(m["r"])
+                            if lt is not None and lt.get("k") == "mem" and lt.get("f") == "err" and not (rt is not None and rt.get("k") == "int" and rt["v"] == NONE_):
+                                alerted = True
+                            if lt is not None and lt.get("k") == "var":
+                                errvars.discard(lt["n"])
+                                if rt is not None and rt.get("k") == "call" and rt.get("fn") and rt["fn"] != "matrixValidateCertsExt":
+                                    tq = prog.resolve_call(fn, rt["fn"])
+                                    if tq is not None and any(w[0] == "F" and w[2] == "err" for w in cg9.writes.get(tq.qname, ())):
+                                        errvars.add(lt["n"])   # a status whose negative values come with ssl->err stored by the callee
+                            if lt is not None and lt.get("k") == "var":
+                                if rt is not None and rt.get("k") == "var" and rt.get("n") in hs:
+                                    hs.add(lt["n"])
+                                elif lt["n"] in hs and not (rt is not None and rt.get("k") == "call" and rt.get("fn") == "matrixValidateCertsExt"):
+                                    hs.discard(lt["n"])
+                                    if not hs and not alerted:
+                                        bad = (l2, "the result is overwritten (forgotten) while it may still be negative", path)
+                    if bad or alerted or not hs:
+                        break
+                    if any(m.get("k") == "call" and m.get("fn") == "matrixUserCertValidator" for m in walk(x)):
+                        bad = (l2, "the certificate callback is invoked", path)
+                        break
+                    if x.get("k") == "ret":
+                        e = strip(x.get("e")) if x.get("e") is not None else None
+                        if e is not None and e.get("k") == "int" and e["v"] >= 0:
+                            bad = (l2, "a success return is reached", path)
+                        ended = True
+                        break
+                if bad or alerted or ended or not hs:
+                    continue
+                t = blk.get("term")
+                for k, sc in enumerate(blk["succ"]):
+                    s_ = sc.get("b")
+                    if s_ is None:
+                        continue
+                    nh = set(hs)
+                    if t is not None and "c" in t and len(blk["succ"]) == 2:
+                        if any((tr and txt == "(%s < 0)" % ev_) or (not tr and txt == "(%s >= 0)" % ev_)
+                               for (txt, tr, nd) in cu._cond_atoms(t["c"], k == 0) for ev_ in errvars):
+                            continue            # the callee that produced this negative status stored the alert
+                        if any((not tr and txt == "(ssl->err == %d)" % NONE_) or (tr and txt == "(ssl->err != %d)" % NONE_)
+                               for (txt, tr, nd) in cu._cond_atoms(t["c"], k == 0)):
+                            continue            # an alert is already pending on this edge
+                        for (txt, tr, nd) in cu._cond_atoms(t["c"], k == 0):
+                            for v in list(nh):
+                                mm = re.match(r"^\(%s (<|<=|>|>=|==|!=) (-?\d+)\)$" % re.escape(v), txt)
+                                if mm:
+                                    op, kk = mm.group(1), int(mm.group(2))
+                                    ev = {"<": lambda r: r < kk, "<=": lambda r: r <= kk, ">": lambda r: r > kk, ">=": lambda r: r >= kk,
+                                          "==": lambda r: r == kk, "!=": lambda r: r != kk}[op]
+                                    samples = [-1, -2, -7, -8, -31, -36, -100] + [q for q in (kk - 1, kk, kk + 1) if q < 0]
+                                    if not any(ev(r) == tr for r in samples):
+                                        nh.discard(v)      # no negative value takes this edge
+                                elif txt == v and not tr:
+                                    nh.discard(v)          # v == 0
+                    key = (s_, frozenset(nh), frozenset(errvars))
+                    if key in seen or not nh:
+                        continue
+                    seen.add(key)
+                    stack.append((s_, None, frozenset(nh), frozenset(errvars), path + [(s_, t.get("ln") if t else None)]))
+            f_ = None
+            if bad is not None:
+                f_ = Finding(PROP, rid, fn.name, "failed chain validation reaches the callback / success without an alert",
+                             "%s:%s %s(): after %s = matrixValidateCertsExt(..) %s at line %s (via lines %s) on a path where the result may be "
+                             "negative and no alert was stored in ssl->err: the validator fails without marking a certificate for e.g. an "
+                             "issuer without keyUsage dated before 1996, and then never consults the trust anchors - the handshake goes on "
+                             "with an unauthenticated chain (no callback), or the callback is told `no alert`" % (
+                                 fn.relfile, ln, fn.name, var, bad[1], bad[0], [p_[1] for p_ in bad[2][-6:]]), file=fn.relfile, line=ln)
+            res.instance(rid, "%s:%s negative result of matrixValidateCertsExt becomes an alert" % (fn.name, ln), bad is None, finding=f_)
     res.floor(rid, 2)
